@@ -193,7 +193,11 @@ fn poly_to_geo(ty: Ty, rings: &[Part], exact: bool, ctx: &mut Ctx) -> Result<(),
     let back: Polygon = m.into();
     let bv = back.view();
     let two_d: Vec<(i32, Vec<XY>)> = bv.parts.iter().map(|p| (p.kind, p.pts.iter().map(|v| (v[0], v[1])).collect())).collect();
-    if exact {
+    // "converting back yields the original 2-D shape": asserted bit for bit whenever every coordinate is finite (also
+    // for zero-area rings — the library reverses such an Inner ring on every pass, and the way back makes two passes);
+    // with infinite coordinates the area is NaN-prone, there only "up to reversal" is asserted
+    let finite = lib_rings.iter().all(|r| r.1.iter().all(|(x, y)| x.v().is_finite() && y.v().is_finite()));
+    if exact || finite {
         ensure!(two_d == lib_rings, "roundtrip", "shape -> geo -> shape: rings {:?} came back as {:?}", lib_rings, two_d);
     } else {
         ensure!(two_d.len() == lib_rings.len(), "roundtrip", "shape -> geo -> shape: {} rings came back as {}", lib_rings.len(), two_d.len());
